@@ -8,6 +8,7 @@
    class left): sheets in order, defined names in order, date flag, and the date flag composed
    with C10's style plumbing.  *)
 From Calamine Require Import Prelude BiffSst Meta Meta_proofs MetaXls_proofs MetaXlsb_proofs MetaXlsNames_proofs.
+From Calamine Require MetaXlsCodePage_proofs.
 From Calamine Require Ptg NumFmt NumFmt_proofs.
 Open Scope N_scope.
 
@@ -42,6 +43,41 @@ Proof. exact xls_parse_encode. Qed.
 Theorem C16_defined_names_in_order_xls : forall show_f64 c wb, xls_legal c wb = true ->
   exists p, xls_parse_workbook show_f64 (xls_stream c wb) = Ok p /\ p_names p = spec_names_xls c wb.
 Proof. exact defined_names_in_order_xls. Qed.
+
+(* xls: the CodePage record (0x0042, [MS-XLS] 2.4.52) decides nothing in a BIFF8 workbook.
+   [xls_legal] admits one of ANY value wherever an ignorable record may stand (Meta.xjunk_ok), so
+   the three theorems above quantify over it already; explicitly: a CodePage record of any 16-bit
+   value put right behind the BOF of any legal globals stream (Excel: 1200, JExcelApi: 1252 — the
+   repository's tests/sheet_name_parsing.xls —, 932, 65001, values unknown to every decoder
+   table) leaves the stream legal and the whole report — sheet names in 8- or 16-bit storage,
+   visibility, kind, defined names, date flag — unchanged.  Until the repair of audit-2 finding
+   XLS-1 every string of such a workbook was decoded through the code page, the model answered
+   "unmodelled" for every value but 1200, and no encoder could write the record. *)
+Theorem C16_report_xls_any_codepage : forall show_f64 cp c wb, cp < 65536 ->
+  xls_legal c wb = true ->
+  xls_parse_workbook show_f64 (xls_stream (MetaXlsCodePage_proofs.with_codepage cp c) wb) =
+  xls_parse_workbook show_f64 (xls_stream c wb) /\
+  xls_parse_workbook show_f64 (xls_stream (MetaXlsCodePage_proofs.with_codepage cp c) wb) =
+  Ok (mkParsed (wb_sheets wb) [] (spec_names_xls c wb) (wb_1904 wb)).
+Proof. exact MetaXlsCodePage_proofs.report_xls_any_codepage. Qed.
+
+Theorem C16_codepage_record_skipped_xls : forall d c rest st, 2 <= len d ->
+  xls_globals (Ok (66, d, c) :: rest) st = xls_globals rest st.
+Proof. exact MetaXlsCodePage_proofs.xls_globals_codepage_any. Qed.
+
+Example C16_xls_codepage_nonvacuous :
+  Forall (fun cp =>
+            xls_legal (MetaXlsCodePage_proofs.with_codepage cp ex_xlsn_c) ex_xlsn_wb = true /\
+            xls_parse_workbook (fun _ => [])
+              (xls_stream (MetaXlsCodePage_proofs.with_codepage cp ex_xlsn_c) ex_xlsn_wb) =
+            Ok (mkParsed (wb_sheets ex_xlsn_wb) [] (spec_names_xls ex_xlsn_c ex_xlsn_wb) true))
+         [1252; 1200; 932; 65001; 437; 54321; 0; 65535] /\
+  firstn 10 (skipn 20 (xls_stream (MetaXlsCodePage_proofs.with_codepage 1252 ex_xlsn_c) ex_xlsn_wb)) =
+    [66; 0; 2; 0; 228; 4; 225; 0; 2; 0] /\
+  xls_legal MetaXlsCodePage_proofs.ex_xlsn_two ex_xlsn_wb = true /\
+  xls_parse_workbook (fun _ => []) (xls_stream MetaXlsCodePage_proofs.ex_xlsn_two ex_xlsn_wb) =
+  Ok (mkParsed (wb_sheets ex_xlsn_wb) [] (spec_names_xls ex_xlsn_c ex_xlsn_wb) true).
+Proof. exact MetaXlsCodePage_proofs.xls_codepage_nonvacuous. Qed.
 
 (* one BoundSheet8 record: hsState is the low 2 bits of its byte, the other six are free *)
 Theorem C16_boundsheet_upper_bits_ignored : forall s ch, ls_legal s ch = true ->
@@ -246,6 +282,9 @@ Print Assumptions C16_sheets_in_order_ods.
 Print Assumptions C16_sheets_in_order_xls.
 Print Assumptions C16_report_xls.
 Print Assumptions C16_defined_names_in_order_xls.
+Print Assumptions C16_report_xls_any_codepage.
+Print Assumptions C16_codepage_record_skipped_xls.
+Print Assumptions C16_xls_codepage_nonvacuous.
 Print Assumptions C16_date_flag_reaches_cells_xls.
 Print Assumptions C16_date_flag_style_xlsx.
 Print Assumptions C16_no_panic_xlsx_open.
